@@ -1,9 +1,17 @@
 package main
 
 import (
+	"bytes"
+	"encoding/json"
 	"flag"
+	"fmt"
+	"os"
+	"os/exec"
 	"runtime"
+	"strings"
 	"sync"
+
+	"github.com/cube2222/octosql/execution"
 
 	"github.com/cube2222/octosql/octosql"
 	"github.com/cube2222/octosql/physical"
@@ -30,6 +38,12 @@ func toTables(x interface{}) map[string]*engine.Table {
 				tab.Rows = append(tab.Rows, vals.ToValues(r))
 			}
 		}
+		if fa, ok := t["fail_at"]; ok {
+			// the source produces rows 1..fail_at-1 and then returns an error (a read error / malformed row in a real datasource)
+			p := vals.Int(fa)
+			rows := tab.Rows
+			tab.Source = func(cols []int) execution.Node { return &failingNode{rows: rows, cols: cols, failAt: p} }
+		}
 		out[name] = tab
 	}
 	return out
@@ -49,12 +63,50 @@ func resultJSON(id interface{}, r engine.Result) map[string]interface{} {
 
 var _ = octosql.Null
 
+type failingNode struct {
+	rows   [][]octosql.Value
+	cols   []int
+	failAt int
+}
+
+func (n *failingNode) Run(ctx execution.ExecutionContext, produce execution.ProduceFn, metaSend execution.MetaSendFn) error {
+	for i, r := range n.rows {
+		if i+1 == n.failAt {
+			return fmt.Errorf("verif: injected read error at row %d", n.failAt)
+		}
+		vs := make([]octosql.Value, len(n.cols))
+		for j, c := range n.cols {
+			vs[j] = r[c]
+		}
+		if err := produce(execution.ProduceFromExecutionContext(ctx), execution.NewRecord(vs, false, execution.Record{}.EventTime)); err != nil {
+			return err
+		}
+	}
+	if n.failAt > len(n.rows) && n.failAt <= len(n.rows)+1 {
+		return nil // fail_at beyond the input: no fault
+	}
+	return nil
+}
+
 // sql-run -in cases.ndjson -out results.ndjson : {"id","tables":{name:{"fields":[[n,T]],"rows":[[v]]}},"sql","optimize"}
 func sqlRun(args []string) error {
 	fs := flag.NewFlagSet("sql-run", flag.ExitOnError)
 	in := fs.String("in", "", "")
 	out := fs.String("out", "", "")
+	isolate := fs.Bool("isolate", false, "run every case in its own process (a panic in a goroutine of the engine kills the process)")
+	one := fs.Bool("one", false, "read one case from stdin, write its result to stdout")
 	fs.Parse(args)
+	if *one {
+		var c map[string]interface{}
+		if err := json.NewDecoder(os.Stdin).Decode(&c); err != nil {
+			return err
+		}
+		opt := true
+		if o, ok := c["optimize"].(bool); ok {
+			opt = o
+		}
+		return json.NewEncoder(os.Stdout).Encode(resultJSON(c["id"], engine.Run(c["sql"].(string), toTables(c["tables"]), opt)))
+	}
 	var cases []map[string]interface{}
 	if err := nd.Read(*in, func(m map[string]interface{}) error { cases = append(cases, m); return nil }); err != nil {
 		return err
@@ -63,6 +115,7 @@ func sqlRun(args []string) error {
 	var wg sync.WaitGroup
 	sem := make(chan struct{}, runtime.NumCPU())
 	var shared map[string]*engine.Table
+	var lastTablesJSON interface{}
 	for i, c := range cases {
 		if c["tables"] != nil {
 			shared = toTables(c["tables"]) // a case without "tables" reuses the previous case's tables
@@ -70,6 +123,37 @@ func sqlRun(args []string) error {
 		tabs := shared
 		wg.Add(1)
 		sem <- struct{}{}
+		if *isolate {
+			if c["tables"] == nil {
+				c["tables"] = lastTablesJSON
+			} else {
+				lastTablesJSON = c["tables"]
+			}
+			go func(i int, c map[string]interface{}) {
+				defer wg.Done()
+				defer func() { <-sem }()
+				b, _ := json.Marshal(c)
+				cmd := exec.Command(os.Args[0], "sql-run", "-one")
+				cmd.Stdin = bytes.NewReader(b)
+				var so, se bytes.Buffer
+				cmd.Stdout, cmd.Stderr = &so, &se
+				err := cmd.Run()
+				var r map[string]interface{}
+				if err == nil && json.Unmarshal(so.Bytes(), &r) == nil {
+					results[i] = r
+					return
+				}
+				msg := se.String()
+				if k := strings.Index(msg, "panic:"); k >= 0 {
+					msg = msg[k:]
+				}
+				if len(msg) > 600 {
+					msg = msg[:600]
+				}
+				results[i] = map[string]interface{}{"id": c["id"], "stage": "panic", "err": "process died: " + msg, "fields": []interface{}{}, "rows": []interface{}{}}
+			}(i, c)
+			continue
+		}
 		go func(i int, c map[string]interface{}, tabs map[string]*engine.Table) {
 			defer wg.Done()
 			defer func() { <-sem }()
